@@ -507,6 +507,9 @@ func c14SchemaUnit(c *mon.Ctx, r *mon.Rng, per, combos int) {
 		if k%4 == 1 {
 			c14Unclosed(c, r)
 		}
+		if k%4 == 3 {
+			c14NoteThenComment(c, r)
+		}
 		c14Negative(c, r, "schema", s0, info.cuts, combos/3)
 		if k == 0 && c.Unit < 4 {
 			c.Sample("schema text, ending class "+info.class, map[string]any{"text": s0 + "\n\nTYPE @x", "expected_len": len(s0)})
@@ -544,6 +547,25 @@ func c14Unclosed(c *mon.Ctx, r *mon.Rng) {
 	c.Count("schema followed by a multi-line annotation that is never closed", 1)
 	if o.OK {
 		c.Violate("len", c14Case{"schema", text}, "error", c14Observed("schema", text), "Len returned a length for a value followed by a multi-line annotation that is never closed")
+	}
+}
+
+// c14NoteThenComment: the last line of the schema carries an inline annotation whose note is cut
+// by a user comment; blank lines and foreign text follow. Whether the comment belongs to S the
+// statement leaves open (both ends are right); an error, or a length inside the foreign text, is not.
+func c14NoteThenComment(c *mon.Ctx, r *mon.Rng) {
+	// (an annotation after the closing bracket is legal for empty containers only)
+	root := mon.Pick(r, []string{"42", "\"abc\"", "{}", "true", "@cat | @dog", "[]", "-0.5", "null"})
+	ann := mon.Pick(r, []string{" // a note", " // {nullable: true} - a note", " // - note", " // {nullable: true} - n"})
+	comment := mon.Pick(r, []string{" # c", "# cut", " #", " # a # b"})
+	trailer := mon.Pick(r, []string{"\n\nGET /cats", "\r\n\r\nTYPE @x", "\n\n\n  200 @cat\n", "\n \n\tfoo", "\n\n"})
+	text := root + ann + comment + trailer
+	got := c14Observed("schema", text)
+	c.Eval(1)
+	c.Count("schema whose last line ends in a note cut by a user comment, then blank lines and foreign text", 1)
+	a, b := fmt.Sprintf("len=%d", len(root+ann+comment)), fmt.Sprintf("len=%d", len(root+ann))
+	if got != a && got != b {
+		c.Violate("len-comment", c14Case{"schema", text}, a+" or "+b, got, "Len of a schema whose last line ends in a note cut by a user comment is neither the end of the comment nor the end of the note")
 	}
 }
 
